@@ -384,8 +384,27 @@ def _r5(repo, L):
     gets = [c for c in walk_shallow(wy.node) if isinstance(c, ast.Call) and isinstance(c.func, ast.Attribute) and c.func.attr == "get" and is_name(c.func.value, wy.params()[2])]
     ok = len(gets) == 1 and isinstance(gets[0].args[0], ast.Constant) and gets[0].args[0].value == tagc
     L.check(ok, "R5", wy.short + ":key", f"haplotig assembly looked up under the tag {tagc!r}", f"haplotig count looks up {norm(gets[0].args[0]) if gets else None}, the builder files haplotigs under {tagc!r}", wy.loc())
-    counts = [n for n in walk_shallow(wy.node) if isinstance(n, ast.Assign) and isinstance(n.value, ast.Call) and dotted(n.value.func) == "len" and ".scaffolds" in norm(n.value)]
-    L.check(len(counts) == 1, "R5", wy.short + ":count", "count = number of scaffolds of that assembly", "haplotig removals are not counted as the number of haplotig scaffolds", wy.loc())
+    # the reported number, by constant propagation: 3 haplotig scaffolds -> 3 ; no haplotig assembly -> 0
+    from ..finite import UNKNOWN, run_paths
+
+    okc, whyc = True, ""
+    if gets:
+        gkey = norm(gets[0])
+        for label_, val, want in (("three haplotig scaffolds", {"scaffolds": ("h1", "h2", "h3")}, 3), ("no haplotig assembly", None, 0)):
+            res = run_paths(wy.node.body, {gkey: val}, loop_iters=(0, 1))
+            got = set()
+            for r in res:
+                if r["path"].status == "raise":
+                    continue
+                vals = [v for (t, v, n) in r["stores"] if "haplotig" in t.lower() and "[" in t]
+                got.add(repr(vals[-1]) if vals else "<not stored>")
+            if got == {repr(UNKNOWN)} or (UNKNOWN in [None] and False):
+                raise AnalysisError(f"{wy.short}: the reported haplotig count is not a function of the haplotig assembly's scaffold list that can be folded")
+            if got != {repr(want)}:
+                if any("UNKNOWN" in g for g in got):
+                    raise AnalysisError(f"{wy.short}: reported haplotig count not foldable with {label_}: {sorted(got)}")
+                okc, whyc = False, f"with {label_} the info file reports {sorted(got)} haplotig removals, expected {want}"
+    L.check(okc, "R5", wy.short + ":count", "count = number of scaffolds of that assembly (0 when there is none)", whyc or "haplotig removals are not counted as the number of haplotig scaffolds", wy.loc())
     # order in cli: write_info_yaml(out_assemblies) before the renaming reassigns the variable
     call_wy = [c for c in repo.calls_in(cli) if dotted(c.func) == wy.name]
     ren = [n for n in walk_shallow(cli.node) if isinstance(n, ast.Assign) and isinstance(n.value, ast.Call) and dotted(n.value.func) == "name_assemblies"]
